@@ -181,7 +181,7 @@ Proof. exact max_flight_ge_1. Qed.
 
 (* ------------------------------------------------------------------ *)
 (* 7. The callers named in the anchors (C02/Wrap.v): rest SheddingHandler and zrpc
-      UnarySheddingInterceptor.  "Each admitted request counts as in flight from Allow until
+      UnarySheddingInterceptor.  "Each let-in request counts as in flight from Allow until
       its promise is resolved once":
       for every verdict of Allow and everything the wrapped handler can do (write no code,
       several codes, a body, panic; return any error), a let-in request runs the handler
@@ -273,7 +273,7 @@ Theorem shed_only_if_hot_and_loaded_in_history : forall c t0 ops k now cpu1 cpu2
   (overloadFactorLowerBound * capacity (final (init c t0) pre) now < snd (hist_avg 0 0%Q rs))%Q.
 Proof. exact shed_only_history_core. Qed.
 
-(*    "Each admitted request counts as in flight from Allow until its promise is resolved once", with the
+(*    "Each let-in request counts as in flight from Allow until its promise is resolved once", with the
       once-ness as a hypothesis on the callers alone ([res_ids]: the promises named by the Pass / Fail
       operations of the history; no result appears in the hypothesis): for every interleaving of the requests'
       operations, flying = promises handed out - promises resolved, only handed-out promises are resolved, and
